@@ -27,6 +27,46 @@ pub enum R {
     RemapXyz { t: u16, x: u16, y: u16, z: u16 },
     /// 3x4 affine matrix in quarter units (row major)
     RemapAffine { t: u16, m: Vec<i8> },
+    /// remap_affine by the exact inverse of the matrix of entry `t` when that
+    /// entry is an affine remap whose inverse is representable (else by a unit
+    /// translation): two consecutive remaps that cancel exactly
+    UndoAffine { t: u16 },
+}
+
+/// Rewrites `UndoAffine` entries into plain affine remaps
+fn normalize(nodes: &[R]) -> Vec<R> {
+    let mut out: Vec<R> = vec![];
+    for (i, n) in nodes.iter().enumerate() {
+        out.push(match n {
+            R::UndoAffine { t } if i > 0 => {
+                let fallback = vec![4i8, 0, 0, 4, 0, 4, 0, 0, 0, 0, 4, 0];
+                let m = match &out[sel(*t, i)] {
+                    R::RemapAffine { m, .. } => mat4(m)
+                        .try_inverse()
+                        .and_then(|inv| {
+                            let mut q = vec![0i8; 12];
+                            for r in 0..3 {
+                                for c in 0..4 {
+                                    let v = inv[(r, c)] as f64 * 4.0;
+                                    if (v - v.round()).abs() > 1e-9 || v.abs() > 127.0 {
+                                        return None;
+                                    }
+                                    q[r * 4 + c] = v.round() as i8;
+                                }
+                            }
+                            // exact: the f32 product must be the identity
+                            (mat4(m) * mat4(&q) == Matrix4::identity()).then_some(q)
+                        })
+                        .unwrap_or(fallback),
+                    _ => fallback,
+                };
+                R::RemapAffine { t: *t, m }
+            }
+            R::UndoAffine { .. } => R::X,
+            other => other.clone(),
+        });
+    }
+    out
 }
 
 #[derive(Clone, Debug, Serialize, Deserialize)]
@@ -64,6 +104,7 @@ fn build(nodes: &[R]) -> Vec<Tree> {
                 out[sel(*z, i)].clone(),
             ),
             R::RemapAffine { t, m } => out[sel(*t, i)].remap_affine(affine(m)),
+            R::UndoAffine { .. } => unreachable!("normalize() removes these"),
         };
         out.push(t);
     }
@@ -161,6 +202,7 @@ fn eval(nodes: &[R], i: usize, p: [f64; 3], vars: &[f64; 3], ex: &mut Exact, dep
             }
             eval(nodes, sel(*t, i), q, vars, ex, depth + 1)
         }
+        R::UndoAffine { .. } => unreachable!("normalize() removes these"),
     };
     ex.see(v)
 }
@@ -234,6 +276,8 @@ impl Prop for P {
                     .prop_map(|(o, a, b)| R::Bin(o, a, b)),
                 4 => (s(), s(), s(), s()).prop_map(|(t, x, y, z)| R::RemapXyz { t, x, y, z }),
                 4 => (s(), matrix_strategy()).prop_map(|(t, m)| R::RemapAffine { t, m }),
+                // most often aimed at the newest entry (selector 0xffff)
+                1 => prop_oneof![3 => Just(u16::MAX), 1 => s()].prop_map(|t| R::UndoAffine { t }),
             ]
         };
         let max = tier.pick(24, 40);
@@ -250,8 +294,17 @@ impl Prop for P {
     }
 
     fn check(case: &Case, cx: &mut Cx) -> CheckResult {
-        let nodes = &case.nodes;
+        let nodes = &normalize(&case.nodes);
         let root = nodes.len() - 1;
+        for (i, n) in case.nodes.iter().enumerate() {
+            if let (R::UndoAffine { t }, true) = (n, i > 0) {
+                if let (R::RemapAffine { m, .. }, R::RemapAffine { m: inv, .. }) = (&nodes[sel(*t, i)], &nodes[i]) {
+                    if mat4(m) * mat4(inv) == Matrix4::identity() && mat4(m) != Matrix4::identity() {
+                        cx.ev.count("exactly_cancelling_affine_pairs");
+                    }
+                }
+            }
+        }
         let c = cost(nodes);
         if c[root] > 2e5 {
             cx.ev.count("skipped_too_expensive_for_the_reference");
